@@ -351,8 +351,9 @@ class Run:
         self.decisions.append(("k", k))
         return k
 
-    def concretize(self, term, lo=None, hi=None):
-        """Fork the path on the concrete value of an integer term (solver-guided enumeration)."""
+    def concretize(self, term, lo=None, hi=None, limit=None):
+        """Fork the path on the concrete value of an integer term (solver-guided enumeration).  At most
+        `limit` (default cfg.max_alternatives) values are tried on one path; the rest is counted as truncated."""
         term = z3.simplify(term)
         if z3.is_int_value(term):
             return term.as_long()
@@ -364,7 +365,7 @@ class Run:
             if self.branch(term == k):
                 return k
             tried += 1
-            if tried >= self.cfg.max_alternatives:
+            if tried >= (limit or self.cfg.max_alternatives):
                 # the term ranges over too many values to enumerate: give up on the remaining ones (counted as truncated)
                 self.stats.truncated += 1
                 raise Truncated()
